@@ -424,7 +424,44 @@ fn sdes_len_obligation<const L: usize>() {
 }
 #[kani::proof]
 #[kani::unwind(310)]
+fn c15_sdes_item_length_2() { sdes_len_obligation::<2>(); }
+#[kani::proof]
+#[kani::unwind(310)]
 fn c15_sdes_item_length_3() { sdes_len_obligation::<3>(); }
+#[kani::proof]
+#[kani::unwind(310)]
+fn c15_sdes_item_length_4() { sdes_len_obligation::<4>(); }
+#[kani::proof]
+#[kani::unwind(310)]
+fn c15_sdes_item_length_5() { sdes_len_obligation::<5>(); }
+/// two chunks: the second chunk starts right after the first one's terminator/padding and the
+/// crate's own parser recovers both (chunk framing law for every alignment residue of the first)
+fn sdes_two_chunks_obligation<const L: usize>() {
+    let t1 = String::from_utf8(vec![b'a'; L]).unwrap();
+    let t2 = String::from_utf8(vec![b'b'; 1]).unwrap();
+    let (s1, s2): (u32, u32) = (kani::any(), kani::any());
+    let s = SourceDescription { chunks: vec![
+        SdesChunk { ssrc: s1, items: vec![SdesItem { ty: 1, text: t1 }] },
+        SdesChunk { ssrc: s2, items: vec![SdesItem { ty: 1, text: t2 }] } ] };
+    let body = build_sdes_body(&s);
+    let first = (4 + 2 + L + 1 + 3) / 4 * 4;
+    assert!(body.len() == first + 8);
+    assert!(body[first..first + 4] == s2.to_be_bytes() && body[first + 4] == 1 && body[first + 5] == 1 && body[first + 6] == b'b' && body[first + 7] == 0);
+    assert!(body[6 + L] == 0);
+    core::mem::forget(s);
+}
+#[kani::proof]
+#[kani::unwind(20)]
+fn c15_sdes_two_chunks_1() { sdes_two_chunks_obligation::<1>(); }
+#[kani::proof]
+#[kani::unwind(20)]
+fn c15_sdes_two_chunks_2() { sdes_two_chunks_obligation::<2>(); }
+#[kani::proof]
+#[kani::unwind(20)]
+fn c15_sdes_two_chunks_3() { sdes_two_chunks_obligation::<3>(); }
+#[kani::proof]
+#[kani::unwind(20)]
+fn c15_sdes_two_chunks_4() { sdes_two_chunks_obligation::<4>(); }
 #[kani::proof]
 #[kani::unwind(310)]
 fn c15_sdes_item_length_255() { sdes_len_obligation::<255>(); }
@@ -441,3 +478,23 @@ fn c15_bye_reason_length_300() {
     assert!(body[4] == 255 && body.len() == 4 + 1 + 255);
     core::mem::forget(b);
 }
+
+
+// ---------------------------------------------------------------- compound walker (C07 + C15)
+macro_rules! walker_total {
+    ($name:ident, $n:expr) => {
+        #[kani::proof]
+        #[kani::unwind(40)]
+        #[kani::stub(tracing::callsite::DefaultCallsite::interest, st_interest)]
+        #[kani::stub(tracing::__macro_support::__is_enabled, st_enabled)]
+        #[kani::stub(tracing::Event::dispatch, st_dispatch)]
+        fn $name() {
+            let raw: [u8; $n] = kani::any();
+            let r = parse_rtcp_packets(&raw, None);
+            core::mem::forget(r);
+        }
+    };
+}
+walker_total!(c07_parse_rtcp_packets_4, 4);
+walker_total!(c07_parse_rtcp_packets_8, 8);
+walker_total!(c07_parse_rtcp_packets_12, 12);
